@@ -29,7 +29,10 @@ Inductive reg_err :=
 | RE_rest_vs_var
 | RE_rest_name
 | RE_dup_route             (* same method, same range *)
-| RE_overlap.              (* same method, overlapping ranges *)
+| RE_overlap               (* same method, overlapping ranges *)
+| RE_dot_segment           (* literal "." or ".." segment in a route path *)
+| RE_rest_vs_exact         (* wildcard where the path that ends before it has handlers *)
+| RE_exact_vs_rest.        (* path ends at a node that has a wildcard edge *)
 
 (* ---------- template parsing ---------- *)
 
@@ -96,6 +99,8 @@ Definition route_segments (path : str) : res reg_err (list str) :=
       let segs := split_on 47 rest in
       if existsb (fun s => match s with [] => true | _ => false end) (removelast segs)
       then Err RE_empty_segment
+      else if existsb (fun s => str_eqb s [46] || str_eqb s [46; 46]) segs
+      then Err RE_dot_segment
       else match last segs [1] with
            | [] => Ok (removelast segs)
            | _ => Ok segs
@@ -187,17 +192,26 @@ Section Router.
     | _, _ => false
     end.
 
+  Definition has_handlers (ms : methods) : bool :=
+    existsb (fun kh => negb (is_nil (snd kh))) ms.
+
   (* the tail of [insert]: conflict test against every handler already
      registered for the method at this node, then push *)
+  Definition push_handler (e : endpoint) (ms : methods) (ed : edges) : res reg_err node :=
+    let m := str_upper (e_method e) in
+    let existing := get_method m ms in
+    match find (fun h => overlaps V cmp (e_versions h) (e_versions e)) existing with
+    | Some h => if vrange_eqb (e_versions h) (e_versions e) then Err RE_dup_route
+                else Err RE_overlap
+    | None => Ok (Node (set_method m (existing ++ [e]) ms) ed)
+    end.
+
   Definition add_handler (e : endpoint) (n : node) : res reg_err node :=
     match n with
     | Node ms ed =>
-        let m := str_upper (e_method e) in
-        let existing := get_method m ms in
-        match find (fun h => overlaps V cmp (e_versions h) (e_versions e)) existing with
-        | Some h => if vrange_eqb (e_versions h) (e_versions e) then Err RE_dup_route
-                    else Err RE_overlap
-        | None => Ok (Node (set_method m (existing ++ [e]) ms) ed)
+        match ed with
+        | ERest _ _ => Err RE_exact_vs_rest   (* the wildcard already matches the path that ends here *)
+        | _ => push_handler e ms ed
         end
     end.
 
@@ -240,6 +254,7 @@ Section Router.
             if mem_str x seen then Err RE_dup_var else
             match n with
             | Node ms ed =>
+                if has_handlers ms then Err RE_rest_vs_exact else
                 match ed with
                 | ENone => do c <- add_handler e empty_node; Ok (Node ms (ERest x c))
                 | ELits _ => Err RE_rest_vs_lit
